@@ -174,6 +174,7 @@ func asciiTerm(c *ctx) string {
 // c08Batch: ASCII terms over {a,b,c} (prefix families, near neighbours), frequency 1 without
 // locations so that merges write single-hit entries next to general ones.
 var c08Batches int
+var c08ForceFreq0 string
 
 func c08Batch(c *ctx, nd int, id string) zh.Batch {
 	var b zh.Batch
@@ -193,10 +194,13 @@ func c08Batch(c *ctx, nd int, id string) zh.Batch {
 	if absent == "" && c.R.Chance(5) {
 		tokenless = []string{"body", "tag"}[c.R.Intn(2)]
 	}
+	if c08ForceFreq0 != "" {
+		absent, tokenless, freq0Field = "", "", c08ForceFreq0
+	}
 	for d := 0; d < nd; d++ {
 		doc := zh.Doc{Fields: []zh.Field{zh.IDField(fmt.Sprintf("%s%02d", id, d))}}
 		for _, fn := range []string{"body", "tag"} {
-			if fn == absent || c.R.Chance(5) {
+			if fn == absent || (c.R.Chance(5) && c08ForceFreq0 == "") {
 				continue
 			}
 			if fn == tokenless {
@@ -292,7 +296,15 @@ func checkC08(c *ctx) {
 	rounds := c.n(60, 1200)
 	for i := 0; i < rounds; i++ {
 		// a chain: two built segments, their merge, and a re-merge
-		b1, b2 := c08Batch(c, 2+c.R.Intn(7), "a"), c08Batch(c, 1+c.R.Intn(6), "b")
+		// every fourth round: both inputs have the same fields, one of them indexed without
+		// frequencies but with term vectors in every document, and every other document of the first
+		// input is deleted (a merge that copies postings and steps over deleted hits)
+		forced := i%4 == 0
+		if forced {
+			c08ForceFreq0 = []string{"body", "tag"}[(i/4)%2]
+		}
+		b1, b2 := c08Batch(c, 4+c.R.Intn(5), "a"), c08Batch(c, 1+c.R.Intn(6), "b")
+		c08ForceFreq0 = ""
 		mode := randMode(c)
 		e1, err := newBuilt(c, b1, mode, c.R.Bool())
 		must(err)
@@ -320,6 +332,17 @@ func checkC08(c *ctx) {
 					}
 				}
 			}
+		}
+		if forced {
+			for k, in := range mc.ins {
+				if in == e1 {
+					mc.nilBM[k], mc.drops[k] = false, nil
+					for d := uint64(0); d+1 < in.n; d += 2 {
+						mc.drops[k] = append(mc.drops[k], d)
+					}
+				}
+			}
+			c.Count("rounds_with_a_frequency_free_field_and_deletions")
 		}
 		spec, _ := specMerge(c, mc)
 		r := runMerge(c, mc)
